@@ -74,8 +74,15 @@ package mapping
 // error and an optional one stays untouched.
 //@ func (*Unmarshaler).processNamedFieldWithoutValue
 //@   prop C05
-//@   opaque Deref, getDefault, maybeNewValue, fillDurationValue, fillSliceWithDefault, setValue, optional, processFieldNotFromString, structValueRequired, newInitError, Kind, Elem
-//@   ensures [default-used] ret(getDefault, 1) ==> calls(fillDurationValue) + calls(fillSliceWithDefault) + calls(setValue) == 1 && calls(newInitError) == 0 && calls(optional) == 0
+//@   opaque Deref, getDefault, maybeNewValue, fillDurationValue, fillSliceWithDefault, setValue, optional, processFieldNotFromString, structValueRequired, newInitError, Kind, Elem, CanSet
+// an unexported member of the destination that the document does not mention (a `_ struct{}` marker, a private helper
+// struct, an unexported field with a default) is an error like a present one, never a write through an unsettable value
+// (reflect panics on those): every path that writes first asks CanSet
+//@   replay-for nothing-written-through-an-unsettable-field mapping_unexported_absent
+//@   ensures [nothing-written-through-an-unsettable-field] calls(maybeNewValue) + calls(fillDurationValue) + calls(fillSliceWithDefault) + calls(processFieldNotFromString) >= 1 ==> calls(CanSet) == 1 && ret(CanSet) && (calls(maybeNewValue) >= 1 ==> before(CanSet, maybeNewValue)) && (calls(fillDurationValue) >= 1 ==> before(CanSet, fillDurationValue)) && (calls(fillSliceWithDefault) >= 1 ==> before(CanSet, fillSliceWithDefault)) && (calls(processFieldNotFromString) >= 1 ==> before(CanSet, processFieldNotFromString))
+//@   ensures [unsettable-field-is-an-error] calls(CanSet) == 1 && !ret(CanSet) ==> result == errValueNotSettable
+//@   ensures [default-asks-settability] ret(getDefault, 1) ==> calls(CanSet) == 1
+//@   ensures [default-used] ret(getDefault, 1) && ret(CanSet) ==> calls(fillDurationValue) + calls(fillSliceWithDefault) + calls(setValue) == 1 && calls(newInitError) == 0 && calls(optional) == 0
 //@   ensures [default-value-passed] ret(getDefault, 1) && calls(setValue) == 1 ==> arg(setValue, 2) == ret(getDefault, 0) && result == ret(setValue)
 //@   ensures [optional-stays-zero] !ret(getDefault, 1) && calls(optional) == 1 && ret(optional) ==> result == nil && calls(setValue) + calls(processFieldNotFromString) + calls(newInitError) == 0
 // an absent container / nested struct is filled from the empty object only when the field is not optional (an
